@@ -187,8 +187,8 @@ pub fn handle(case: &JsonValue) -> JsonValue {
     }
     if case["render"].as_bool().unwrap_or(false) {
         let costs = case["costs"].as_bool().unwrap_or(false);
-        o["render_full"] = crate::guarded(|| render_json(case, true, costs));
-        o["render_cents"] = crate::guarded(|| render_json(case, false, costs));
+        o["render_full"] = crate::hcommon::guarded(|| render_json(case, true, costs));
+        o["render_cents"] = crate::hcommon::guarded(|| render_json(case, false, costs));
     }
     o
 }
